@@ -11,7 +11,7 @@ from harness.lib import hx, cz, clist
 ID = 'C15'
 RULE = ('well-formed BED3 / BED6 / FASTQ / two-line FASTA / wrapped FASTA files of 1..5 records with ONE violation (non-numeric in an int column, '
         'character outside the strand alphabet, record not starting with its marker, "+" line replaced or really missing, different column count) '
-        'injected at every record position x every chunk size 1..size+2 and whole read x {lazy, eager} x {BytesIO reader in seek / '
+        '(also in float columns mixing plain and scientific notation and in Optional[int] columns with "." placeholders: illegal character, two decimal points, no digit) injected at every record position x every chunk size 1..size+2 and whole read x {lazy, eager} x {BytesIO reader in seek / '
         'prepend mode, real plain / .gz file through bnp.open}; plus unviolated controls. non-trivial = violation not in the first '
         'chunk (the line offset bookkeeping matters)')
 EXHAUSTIVE = {'quick': False, 'thorough': False}
@@ -21,7 +21,7 @@ ASSUMPTIONS = ['the violating characters are chosen outside the characters the a
 PARTIAL = []
 PER_FILE = 64
 
-TYS = {'bed3': '[CStr; CInt; CInt]', 'bed6': '[CStr; CInt; CInt; CStr; CStr; CStrand]'}
+TYS = {'bed3': '[CStr; CInt; CInt]', 'bed6': '[CStr; CInt; CInt; CStr; COptInt; CStrand]', 'bdg': '[CStr; CInt; CInt; CFloat]'}
 FMT = {'fq': 'FastQ', 'fa2': 'TwoLineFasta'}
 
 
@@ -31,7 +31,12 @@ def _records(fmt, n, rng):
         if fmt == 'bed3':
             recs.append([b'chr%d\t%d\t%d\n' % (1 + i % 2, rng.choice([0, 7, 10, 123]), rng.choice([9, 150, 2000]))])
         elif fmt == 'bed6':
-            recs.append([b'c%d\t%d\t%d\tn%d\t%d\t%s\n' % (i % 3, rng.choice([1, 55]), rng.choice([60, 700]), i, i, b'+-.'[i % 3:i % 3 + 1])])
+            score = b'.' if (i + n) % 2 else b'%d' % (i * 7)       # Optional[int]: '.' placeholders next to numbers
+            recs.append([b'c%d\t%d\t%d\tn%d\t%s\t%s\n' % (i % 3, rng.choice([1, 55]), rng.choice([60, 700]), i, score, b'+-.'[i % 3:i % 3 + 1])])
+        elif fmt == 'bdg':
+            # float column mixing plain and scientific notation
+            v = [b'1.5', b'2e3', b'0.25', b'7.75e-1', b'3', b'-0.5', b'+4.0e+1'][(i + n) % 7]
+            recs.append([b'chr%d\t%d\t%d\t%s\n' % (1 + i % 2, i * 10, i * 10 + 5, v)])
         elif fmt == 'fq':
             s = b'ACGTACG'[:1 + (i * 3) % 7]
             recs.append([b'@r%d\n' % i, s + b'\n', b'+\n', b'!' * len(s) + b'\n'])
@@ -49,6 +54,15 @@ def _violate(fmt, recs, r, cls):
         p = recs[r][0].split(b'\t')
         p[1] = p[1] + b'z' if r % 2 else b'?' + p[1]
         recs[r][0] = b'\t'.join(p)
+    elif cls == 'score':
+        p = recs[r][0].rstrip(b'\n').split(b'\t')
+        p[4] = [b'x7', b'7x', b'1.5', b'..'][r % 4]
+        recs[r][0] = b'\t'.join(p) + b'\n'
+    elif cls in ('float_char', 'float_dots', 'float_nodigit'):
+        p = recs[r][0].rstrip(b'\n').split(b'\t')
+        p[3] = {'float_char': [b'x.5', b'1.5e3x', b'1ex', b'1,5', b'2.5E3', b'nan'], 'float_dots': [b'1.2.3', b'1..2', b'1.2.3e4'],
+                'float_nodigit': [b'+', b'-', b'.', b'+.', b'1e+', b'2.5e-']}[cls][r % {'float_char': 6, 'float_dots': 3, 'float_nodigit': 6}[cls]]
+        recs[r][0] = b'\t'.join(p) + b'\n'
     elif cls == 'strand':
         p = recs[r][0].rstrip(b'\n').split(b'\t')
         p[5] = b'*' if r % 2 else b'?'
@@ -67,14 +81,15 @@ def _violate(fmt, recs, r, cls):
     return recs
 
 
-CLASSES = {'bed3': ['int', 'ncols_more', 'ncols_less'], 'bed6': ['strand', 'int', 'ncols_less'], 'fq': ['marker', 'plus', 'plus_deleted'], 'fa2': ['marker'], 'mfa': ['marker']}
+CLASSES = {'bed3': ['int', 'ncols_more', 'ncols_less'], 'bed6': ['strand', 'int', 'score', 'ncols_less'],
+           'bdg': ['int', 'float_char', 'float_dots', 'float_nodigit'], 'fq': ['marker', 'plus', 'plus_deleted'], 'fa2': ['marker'], 'mfa': ['marker']}
 
 
 def generate(tier, seed):
     rng = random.Random(seed * 7907 + 15)
     cases = []
     ns = [1, 2, 3, 4] if tier == 'quick' else [1, 2, 3, 4, 5, 6]
-    for fmt in ('bed3', 'bed6', 'fq', 'fa2', 'mfa'):
+    for fmt in ('bed3', 'bed6', 'bdg', 'fq', 'fa2', 'mfa'):
         for n in ns:
             base = _records(fmt, n, rng)
             variants = [(None, None)] + [(cls, r) for cls in CLASSES[fmt] for r in range(n)]
@@ -106,11 +121,11 @@ def generate(tier, seed):
 
 
 def _buffer(fmt):
-    from bionumpy.io.delimited_buffers import BedBuffer, Bed6Buffer
+    from bionumpy.io.delimited_buffers import BedBuffer, Bed6Buffer, BdgBuffer
     from bionumpy.io.fastq_buffer import FastQBuffer
     from bionumpy.io.one_line_buffer import TwoLineFastaBuffer
     from bionumpy.io.multiline_buffer import MultiLineFastaBuffer
-    return {'mfa': MultiLineFastaBuffer, 'bed3': BedBuffer, 'bed6': Bed6Buffer, 'fq': FastQBuffer, 'fa2': TwoLineFastaBuffer}[fmt]
+    return {'mfa': MultiLineFastaBuffer, 'bdg': BdgBuffer, 'bed3': BedBuffer, 'bed6': Bed6Buffer, 'fq': FastQBuffer, 'fa2': TwoLineFastaBuffer}[fmt]
 
 
 def observe(case):
@@ -129,7 +144,7 @@ def observe(case):
             rd = NpDataclassReader(r, lazy=case['lazy'])
         else:
             d = tempfile.mkdtemp(prefix='c15_')
-            path = os.path.join(d, 'f.' + {'bed3': 'bed', 'bed6': 'bed', 'fq': 'fq', 'fa2': 'fa', 'mfa': 'fa'}[case['fmt']] + ('.gz' if case['route'] == 'gz' else ''))
+            path = os.path.join(d, 'f.' + {'bed3': 'bed', 'bed6': 'bed', 'bdg': 'bdg', 'fq': 'fq', 'fa2': 'fa', 'mfa': 'fa'}[case['fmt']] + ('.gz' if case['route'] == 'gz' else ''))
             with (gzip.open(path, 'wb') if case['route'] == 'gz' else open(path, 'wb')) as f:
                 f.write(data)
             rd = bnp.open(path, buffer_type=_buffer(case['fmt']), lazy=case['lazy'])
